@@ -497,6 +497,26 @@ func genKDUnroll(repo string) (string, error) {
 		}
 		fmt.Fprintf(&b, "def %s : List (Nat × String × Nat) := [%s]\n", p.def, strings.Join(ops, ", "))
 	}
+	// package-level variables of the two files (signing and derivation keep no state between calls)
+	for _, pf := range []struct{ file, def string }{{"crypto/ed25519/chainkd/chainkd.go", "chainkdPackageVars"}, {"crypto/ed25519/chainkd/expanded_key.go", "expandedKeyPackageVars"}} {
+		ff, err := txtParse(repo, pf.file)
+		if err != nil {
+			return "", err
+		}
+		var vars []string
+		for _, d := range ff.Decls {
+			g, ok := d.(*ast.GenDecl)
+			if !ok || g.Tok != token.VAR {
+				continue
+			}
+			for _, sp := range g.Specs {
+				for _, n := range sp.(*ast.ValueSpec).Names {
+					vars = append(vars, fmt.Sprintf("%q", n.Name))
+				}
+			}
+		}
+		fmt.Fprintf(&b, "/-- names of all package-level variables declared in %s -/\ndef %s : List String := [%s]\n", pf.file, pf.def, strings.Join(vars, ", "))
+	}
 	// nonhardenedChild: after `sum := int(0)` come pairs
 	//   sum = int(xprv[i]) + int(res[i]) + (sum >> 8)
 	//   res[i] = byte(sum & 0xff)
